@@ -13,6 +13,8 @@ from .source import Repo, ModInfo
 from . import ops, lib
 import ast
 
+import sys as _sys
+_sys.setrecursionlimit(20000)
 _REPO = None
 
 
